@@ -189,6 +189,7 @@ def main(tier, seed):
     # ---- kotlin.use_finalizers_not_cleaners and demo_gen.*: code-shape keys
     for key, backend, domain_vals in (("kotlin.use_finalizers_not_cleaners", "kotlin", [True, False]),
                                       ("demo_gen.explicit_generation", "demo_gen", [True, False]),
+                                      ("demo_gen.hide_default_renderer", "demo_gen", [True, False]),
                                       ("demo_gen.module_name", "demo_gen", ["modA", "modB"]),
                                       ("demo_gen.relative_js_path", "demo_gen", ["../pathA", "../pathB"])):
         for r in range(1, 4):
